@@ -12,6 +12,7 @@ import Driver.Song
 import Ctrmml.Model.MdDriver
 import Ctrmml.Model.MdsData
 import Ctrmml.Model.Wave
+import Ctrmml.Model.Tags
 import Ctrmml.Spec.Schedule
 namespace Driver.MdDrvD
 open Ctrmml Ctrmml.MdDriver Driver
@@ -51,19 +52,23 @@ structure Req where
   files : List (String × Bytes) := []
   /-- `#<key>=<hex>` -/
   songTags : TagMap := []
+  /-- `X<hex>`: byte strings a stream start may address (the instruments' samples; C08 judge) -/
+  expect : List Bytes := []
 
 def parseReq (arg : String) : Option Req := do
   let (song, rest) ← parseSong (words arg)
   let ws := rest.filter (·.startsWith "W")
   let hs := rest.filter (·.startsWith "#")
-  let tags ← parseTags (rest.filter fun t => !(t.startsWith "W") && !(t.startsWith "#"))
+  let xs := rest.filter (·.startsWith "X")
+  let expect ← xs.mapM fun t => bytesOfHex (t.drop 1).toString
+  let tags ← parseTags (rest.filter fun t => !(t.startsWith "W") && !(t.startsWith "#") && !(t.startsWith "X"))
   let files ← ws.mapM fun t => match (t.drop 1).toString.splitOn "=" with
     | [n, h] => do pure (n, ← bytesOfHex h)
     | _ => none
   let st ← hs.mapM fun t => match t.splitOn "=" with
-    | [k, h] => do pure (k, [← bytesOfHex h])
+    | [k, h] => do pure (k, [Tags.rtrim (← bytesOfHex h)])   -- `Song::set_tag` deletes trailing spaces
     | _ => none
-  pure { song := { tracks := sortTracks song.tracks }, tags := tags, files := files, songTags := st }
+  pure { song := { tracks := sortTracks song.tracks }, tags := tags, files := files, songTags := st, expect := expect }
 
 def isPcmTag (kv : String × List String) : Bool :=
   match kv.2 with
@@ -171,7 +176,44 @@ def judge (arg impl : String) : String :=
               | some w => s!"fail {w}"
               | none => s!"ok notes={v.notes} extent={v.extent}"
 
+/-! ### C08 judge on the same request: the file is well formed (`VgmSpec.analyse`), its eleven
+GD3 strings render the song's tags, every stream start addresses one of the expected samples -/
+def judge8 (arg impl : String) : String :=
+  match parseReq arg with
+  | none => "skip"
+  | some r =>
+    let tags := (reqTags r).toList
+    let tagsValid := tags.all fun b => VgmSpec.validUtf8 (Vgm.cstr b)
+    if impl.startsWith "exc:" then
+      if !tagsValid then (if impl == "exc:InputError" then "ok" else "fail range_error escaped: " ++ impl)
+      else "skip"
+    else if impl.startsWith "crash" ∨ impl == "timeout" then "fail " ++ impl
+    else
+      match getField impl "hex" with
+      | none => "fail no file produced"
+      | some hex =>
+        match bytesOfHex hex with
+        | none => "fail no file produced"
+        | some f =>
+          -- a tag the lenient decoder lets through (incomplete last sequence, 3-byte surrogates) is
+          -- outside the statement, as in the writer-level judge
+          if !tagsValid then "skip" else
+          match VgmSpec.analyse f with
+          | .error why => s!"fail {why}"
+          | .ok info =>
+            if info.strs.length ≠ 11 then s!"fail GD3 holds {info.strs.length} strings, not 11"
+            else match (info.strs.zip tags).zipIdx.find? (fun ((u, t), _) => !VgmSpec.rendersTag 256 u (Vgm.cstr t)) with
+              | some (_, i) => s!"fail GD3 string {i} does not render the tag"
+              | none =>
+                let ws := VgmSpec.streamWindows info.cmds
+                if r.expect.isEmpty then "ok"
+                else if ws.isEmpty then "fail no stream start for a song with PCM notes"
+                else match ws.find? (fun w => !r.expect.contains w) with
+                  | some w => s!"fail stream start addresses {w.length} bytes that are not an instrument's sample"
+                  | none => "ok"
+
 def handlers : List Driver.Handler :=
-  [{ cmd := "mdvgm", model := model, judge := judge }]
+  [{ cmd := "mdvgm", model := model, judge := judge },
+   { cmd := "c08song", model := model, judge := judge8 }]
 
 end Driver.MdDrvD
